@@ -49,6 +49,7 @@ PROPS["C11"] = {
         {"pkg": "consensus", "gen": CONS_GEN, "run": "^VH_C11_(RT|TR)_", "params": {"quick": {"n": 1}, "thorough": {"n": 2}},
          "tv_harnesses": ["VH_C11_RT_State", "VH_C11_RT_V1TransactionSupplement"]},
         {"pkg": "rhp/v4", "gen": {"skip": []}, "run": "^VH_C11_(RT|TR)_", "skip": "(FormContract|RefreshContract|RenewContract)", "params": {"quick": {"n": 1}, "thorough": {"n": 2}}},
+        {"pkg": "gateway", "gen": {"support": "harness/c11/support_gateway.go", "skip": []}, "run": "^VH_C11_(RT|TR)_", "skip": "(RPCSendV2BlocksResp|RPCSendTransactionsResp|RPCSendCheckpointResp|RPCRelayV2BlockOutlineReq|RPCRelayV2TransactionSetReq|V2BlockOutline)$", "params": {"quick": {"n": 1}, "thorough": {"n": 2}}},
         {"pkg": "rhp/v2", "gen": {"skip": []}, "run": "^VH_C11_RT_", "skip": "(FormContractAdditions|FormContractRequest|LockResponse|RenewAndClearContractRequest)", "params": {"quick": {"n": 1}, "thorough": {"n": 1}}, "flags": {"quick": ["-maxpaths", "50000"], "thorough": ["-maxpaths", "50000"]}},
         {"pkg": "rhp/v3", "gen": {"skip": []}, "run": "^VH_C11_RT_", "skip": "(InstrReadRegistryNoVersion|InstrUpdateRegistryNoType|ExecuteProgramResponse|LatestRevisionResponse|RenewContractHostAdditions|RenewContractRequest)", "params": {"quick": {"n": 1}, "thorough": {"n": 1}}, "flags": {"quick": ["-maxpaths", "50000"], "thorough": ["-maxpaths", "50000"]}},
         {"pkg": "types", "gen": TYPES_GEN, "run": "^VH_C11_RT_", "params": {"thorough": {"n": 0}}, "thorough_only": True},
@@ -58,7 +59,7 @@ PROPS["C11"] = {
     "tv_runs": {"quick": 2, "thorough": 6},
     "bounds": {"quick": "every slice field 1 element (byte strings 1 byte), pointers non-nil, 7 policy kinds / 3 resolution kinds forked; v1 currencies inside composite v1 objects restricted to one common byte-length in {0,1,8,9,16} (all 17 lengths on V1Currency/V1SiacoinOutput themselves); truncation at every prefix length for all types except Transaction/V1Block/V2Transaction",
                "thorough": "slice lengths 0, 1 and 2; truncation also for Transaction and V2Transaction"},
-    "outside": ["values with slices longer than the bound", "multiproof block forms (V2Block, V2BlockData, V2TransactionsMultiproof): see C18", "gateway objects (request/response views share one struct; per-direction field tables not written)", "rhp objects that embed v1 transactions/revisions or spend policies (skip lists in evidence.coverage.runs): their documented normalisations were not encoded", "types.elementLeaf (internal, decoder needs preset pointers)",
+    "outside": ["values with slices longer than the bound", "multiproof block forms (V2Block, V2BlockData, V2TransactionsMultiproof): see C18", "gateway objects that carry blocks, v1/v2 transaction sets, checkpoints or outlines (multiproof / policy shapes; see C18 for the outline)", "rhp objects that embed v1 transactions/revisions or spend policies (skip lists in evidence.coverage.runs): their documented normalisations were not encoded", "types.elementLeaf (internal, decoder needs preset pointers)",
                 "canonicity of arbitrary accepted byte strings is NOT claimed: V1Currency accepts leading zero bytes and V2Transaction accepts set field bits with empty lists (the property only speaks about an object's own encoding)"],
     "stubs": ["bytes.Buffer, io.LimitedReader, bytes.Reader, encoding/binary: real library code executed"],
     "assumptions": COMMON_ASSUME + ["documented normalisations applied before comparison: StateElement.shared=false, v1 revision Payout = sentinel, V1Block.V2 = nil, nil == empty slice, times built with time.Unix(s,0)"],
